@@ -65,7 +65,13 @@ func c06(c *orch.Ctx) (*report.Result, error) {
 						opsChecked++
 						dist.Add(sigShape(m))
 						if kind, detail := compareContract(expectedContract(p, cc, m), op.Raw); kind != "" {
-							res.AddViolation(kind, map[string]string{"version": v}, fmt.Sprintf("[%s %s] %s.%s (%s): %s", p.Name, v, cc.Name, m.Name, key, detail), caseOf(p, map[string]any{"version": v, "method": cc.Name + "." + m.Name}))
+							where := map[string]string{"version": v}
+							if p.HasFeature("user-type-time.Time") && strings.Contains(detail, "date-time") && strings.Contains(detail, "ref:Time") {
+								// cause attested from the descriptor: the project declares its own struct named Time
+								where["cause"] = "user-struct-named-Time-documented-as-date-time"
+								kind = "named-Time-struct-documented-as-date-time"
+							}
+							res.AddViolation(kind, where, fmt.Sprintf("[%s %s] %s.%s (%s): %s", p.Name, v, cc.Name, m.Name, key, detail), caseOf(p, map[string]any{"version": v, "method": cc.Name + "." + m.Name}))
 						}
 						if len(res.Samples) < 3 && len(m.Params) > 2 {
 							res.Samples = append(res.Samples, map[string]any{"method": cc.Name + "." + m.Name, "operation": key, "signature_shape": sigShape(m), "expected_contract": fmt.Sprintf("%+v", expectedContract(p, cc, m))})
